@@ -148,13 +148,8 @@ def replace_ref(text, oldvalue, newvalue="n/a"):
         elif p2 > p1:  # We have more ending parens.  Make sure we don't remove comma after
             output = ")" * (p2 - p1) + match.group("c2")
         else:
-            c1 = match.group("c1")
-            c2 = match.group("c2")
-            if c1:
-                c1 = ""
-            elif c2:
-                c2 = ""
-            output = c1 + c2
+            # drop exactly one of the surrounding commas: the one before, if there is one
+            output = match.group("c2") if "," in match.group("c1") else ""
 
         return output
 
